@@ -576,6 +576,197 @@ func (p *pkgInfo) newLiteral(typ string) (map[string]string, error) {
 	return res, nil
 }
 
+// ---------------- ownership discipline facts ----------------
+type ownSpec struct {
+	Name    string // label
+	Dir     string // package dir
+	Recv    string // receiver type ("" for a plain function)
+	Func    string
+	Aliases []string // source texts that denote the buffer
+	Owner   string   // variable whose putJSONEncoder(...) detaches the buffer ("" if none)
+}
+
+var c08Owns = []ownSpec{
+	{"ioCore.Write", "zapcore", "ioCore", "Write", []string{"buf"}, ""},
+	{"jsonEncoder.EncodeEntry", "zapcore", "jsonEncoder", "EncodeEntry", []string{"final.buf", "ret"}, "final"},
+	{"consoleEncoder.EncodeEntry", "zapcore", "consoleEncoder", "EncodeEntry", []string{"line"}, ""},
+	{"consoleEncoder.writeContext", "zapcore", "consoleEncoder", "writeContext", []string{"context.buf"}, "context"},
+	{"putJSONEncoder", "zapcore", "", "putJSONEncoder", []string{"enc.reflectBuf"}, ""},
+	{"EntryCaller.FullPath", "zapcore", "EntryCaller", "FullPath", []string{"buf"}, ""},
+	{"EntryCaller.TrimmedPath", "zapcore", "EntryCaller", "TrimmedPath", []string{"buf"}, ""},
+	{"Logger.check", ".", "Logger", "check", []string{"buffer"}, ""},
+	{"stacktrace.Take", "internal/stacktrace", "", "Take", []string{"buffer"}, ""},
+}
+
+func (p *pkgInfo) findFunc(recv, name string) *ast.FuncDecl {
+	for _, f := range p.files {
+		for _, d := range f.Decls {
+			fd, ok := d.(*ast.FuncDecl)
+			if !ok || fd.Name.Name != name || fd.Body == nil {
+				continue
+			}
+			if recv == "" {
+				if fd.Recv == nil {
+					return fd
+				}
+				continue
+			}
+			if fd.Recv == nil || len(fd.Recv.List) != 1 {
+				continue
+			}
+			t := fd.Recv.List[0].Type
+			if s, ok := t.(*ast.StarExpr); ok {
+				t = s.X
+			}
+			if id, ok := t.(*ast.Ident); ok && id.Name == recv {
+				return fd
+			}
+		}
+	}
+	return nil
+}
+
+type ownWalker struct {
+	p       *pkgInfo
+	aliases map[string]bool
+	owner   string
+	events  []string
+	late    []string // deferred
+}
+
+func (w *ownWalker) emit(dst *[]string, e string) {
+	if e == "BUse" && len(*dst) > 0 && (*dst)[len(*dst)-1] == "BUse" {
+		return
+	}
+	*dst = append(*dst, e)
+}
+
+func (w *ownWalker) isAlias(e ast.Expr) bool {
+	switch e.(type) {
+	case *ast.Ident, *ast.SelectorExpr:
+		return w.aliases[w.p.src(e)]
+	}
+	return false
+}
+
+func (w *ownWalker) walk(n ast.Node, dst *[]string) {
+	if n == nil {
+		return
+	}
+	switch v := n.(type) {
+	case *ast.DeferStmt:
+		if fl, ok := v.Call.Fun.(*ast.FuncLit); ok {
+			w.walk(fl.Body, &w.late)
+		} else {
+			w.walk(v.Call, &w.late)
+		}
+		return
+	case *ast.CallExpr:
+		if sel, ok := v.Fun.(*ast.SelectorExpr); ok && sel.Sel.Name == "Free" && w.isAlias(sel.X) {
+			w.emit(dst, "BFree")
+			return
+		}
+		if w.owner != "" && w.p.src(v.Fun) == "putJSONEncoder" && len(v.Args) == 1 && w.p.src(v.Args[0]) == w.owner {
+			w.emit(dst, "BOwnerPut")
+			return
+		}
+	case *ast.ReturnStmt:
+		for _, r := range v.Results {
+			if w.isAlias(r) {
+				w.emit(dst, "BRet")
+			} else {
+				w.walk(r, dst)
+			}
+		}
+		return
+	case *ast.BinaryExpr:
+		if id, ok := v.Y.(*ast.Ident); ok && id.Name == "nil" && w.isAlias(v.X) {
+			return // comparing the pointer with nil does not touch the buffer
+		}
+	case *ast.AssignStmt:
+		// x := alias  /  alias = nil : pointer copies, not uses;  x := alias.Bytes() : x aliases the contents
+		if len(v.Lhs) == 1 && len(v.Rhs) == 1 {
+			if w.isAlias(v.Rhs[0]) {
+				if id, ok := v.Lhs[0].(*ast.Ident); ok {
+					w.aliases[id.Name] = true
+				}
+				return
+			}
+			if w.isAlias(v.Lhs[0]) {
+				w.walk(v.Rhs[0], dst)
+				return
+			}
+			if c, ok := v.Rhs[0].(*ast.CallExpr); ok {
+				if sel, ok := c.Fun.(*ast.SelectorExpr); ok && sel.Sel.Name == "Bytes" && w.isAlias(sel.X) {
+					if id, ok := v.Lhs[0].(*ast.Ident); ok {
+						w.emit(dst, "BUse")
+						w.aliases[id.Name] = true
+						return
+					}
+				}
+			}
+		}
+	case *ast.Ident, *ast.SelectorExpr:
+		if w.isAlias(v.(ast.Expr)) {
+			w.emit(dst, "BUse")
+			return
+		}
+	}
+	// children in source order
+	var kids []ast.Node
+	ast.Inspect(n, func(c ast.Node) bool {
+		if c == n {
+			return true
+		}
+		if c != nil {
+			kids = append(kids, c)
+		}
+		return false
+	})
+	for _, k := range kids {
+		w.walk(k, dst)
+	}
+}
+
+func genOwnFacts(repo string, pkgs map[string]*pkgInfo, b *strings.Builder) error {
+	b.WriteString("\n(* what each function does, in source order, with the pooled buffer it holds *)\n")
+	b.WriteString("Definition own_facts : list ownfact := [\n")
+	for i, sp := range c08Owns {
+		p := pkgs[sp.Dir]
+		if p == nil {
+			var err error
+			p, err = loadPkg(filepath.Join(repo, sp.Dir))
+			if err != nil {
+				return err
+			}
+			pkgs[sp.Dir] = p
+		}
+		fd := p.findFunc(sp.Recv, sp.Func)
+		if fd == nil {
+			return fmt.Errorf("%s: function not found", sp.Name)
+		}
+		w := &ownWalker{p: p, aliases: map[string]bool{}, owner: sp.Owner}
+		for _, a := range sp.Aliases {
+			w.aliases[a] = true
+		}
+		w.walk(fd.Body, &w.events)
+		ev := append([]string(nil), w.events...)
+		for _, e := range w.late {
+			w.emit(&ev, e)
+		}
+		if len(ev) == 0 {
+			return fmt.Errorf("%s: the buffer %v does not occur any more", sp.Name, sp.Aliases)
+		}
+		fmt.Fprintf(b, "  {| of_fn := \"%s\"; of_buf := \"%s\"; of_events := [%s] |}", sp.Name, sp.Aliases[0], strings.Join(ev, "; "))
+		if i < len(c08Owns)-1 {
+			b.WriteString(";")
+		}
+		b.WriteString("\n")
+	}
+	b.WriteString("].\n")
+	return nil
+}
+
 func genPoolFacts(repo, out string) error {
 	var b strings.Builder
 	b.WriteString("(* GENERATED by gen/c08_poolfacts.go from the zap working tree (zapcore/json_encoder.go,\n")
@@ -666,6 +857,9 @@ func genPoolFacts(repo, out string) error {
 		b.WriteString("\n")
 	}
 	b.WriteString("].\n")
+	if err := genOwnFacts(repo, pkgs, &b); err != nil {
+		return err
+	}
 	path := filepath.Join(out, "PoolFacts.v")
 	if old, err := os.ReadFile(path); err == nil && string(old) == b.String() {
 		return nil // unchanged: keep the timestamp so that nothing is rebuilt
